@@ -528,6 +528,8 @@ func mdTable(md string) [][]string {
 	return rows
 }
 
+func init() { hx.Register("C17", Run, Replay) }
+
 func Run(c *hx.Ctx) {
 	c.Rep.Rule = "codec: every index in a bounded range + random big indices + malformed refs; workbooks: random logical sheets (sparse cells, 8 cell kinds, merges, shuffled rows/cells/members) rendered by the harness's XLSX writer; non-trivial = at least one non-empty cell; distinct by canonical workbook"
 	codec(c)
